@@ -32,6 +32,13 @@ func (co *coordinator) prepare(to *Node, as, account string, t uint32, parts []*
 	})
 }
 
+func (co *coordinator) prepareWith(to *Node, as, account string, t uint32, eps []*pb.Endpoint) error {
+	return to.guard("prepare", func() error {
+		_, err := to.Recv.Prepare(to.PeerCtx(as), roundTrip(&pb.PrepareRequest{Account: account, Passphrase: []byte("pass"), Threshold: t, Participants: eps}, &pb.PrepareRequest{}))
+		return err
+	})
+}
+
 func (co *coordinator) execute(to *Node, as, account string) error {
 	return to.guard("execute", func() error {
 		_, err := to.Recv.Execute(to.PeerCtx(as), &pb.ExecuteRequest{Account: account})
@@ -121,9 +128,15 @@ type c16case struct {
 	Caller string // peer | peer-other | client | empty | unknown | peer-uppercase
 	Msg    string
 	State  string
+	Named  bool // earlier on, a genuine peer's Prepare for another account named the caller among its participants
 }
 
-func (c c16case) String() string { return c.Caller + "/" + c.Msg + "/" + c.State }
+func (c c16case) String() string {
+	if c.Named {
+		return c.Caller + "/" + c.Msg + "/" + c.State + "/named-in-an-earlier-participant-list"
+	}
+	return c.Caller + "/" + c.Msg + "/" + c.State
+}
 
 func c16Table() []c16case {
 	var out []c16case
@@ -131,7 +144,15 @@ func c16Table() []c16case {
 		"peer-name-as-host-of-a-domain", "peer-name-with-trailing-dot", "peer-name-prefix", "peer-name-with-port", "peer-name-with-space"} {
 		for _, msg := range []string{"prepare", "execute", "contribute", "commit", "abort"} {
 			for _, st := range []string{"none", "prepared", "executed", "committed", "aborted", "expired"} {
-				out = append(out, c16case{caller, msg, st})
+				out = append(out, c16case{caller, msg, st, false})
+			}
+		}
+	}
+	for _, caller := range []string{"client-with-all-permissions", "unknown", "peer-name-uppercase", "peer-name-with-suffix",
+		"peer-name-as-host-of-a-domain", "peer-name-with-trailing-dot", "peer-name-prefix", "peer-name-with-port", "peer-name-with-space"} {
+		for _, msg := range []string{"prepare", "execute", "contribute", "commit", "abort"} {
+			for _, st := range []string{"none", "prepared", "executed", "committed", "aborted", "expired"} {
+				out = append(out, c16case{caller, msg, st, true})
 			}
 		}
 	}
@@ -240,6 +261,19 @@ func runDKGCallers(t *testing.T, rc *RunCtx) {
 	caller := map[string]string{"peer": parts[2].Name, "peer-not-in-generation": outsider.Name, "client-with-all-permissions": "client1", "empty": "", "unknown": "nobody", "peer-name-uppercase": "SIGNER-02", "peer-name-with-suffix": "signer-02x",
 		"peer-name-as-host-of-a-domain": "signer-02.clients.example.com", "peer-name-with-trailing-dot": "signer-02.", "peer-name-prefix": "signer-0", "peer-name-with-port": "signer-02:9001", "peer-name-with-space": " signer-02"}[tc.Caller]
 	isPeer := tc.Caller == "peer"
+	// The second part of the table: earlier on, a genuine peer opened a generation for another account at the target whose
+	// participant list names the caller (an endpoint the target knows nothing of, with an identifier of its own). What a
+	// peer wrote into a request does not make anybody a peer.
+	if tc.Named {
+		eps := append(co.endpoints(parts), &pb.Endpoint{Id: 9, Name: caller, Port: 9009})
+		err := co.prepareWith(target, legit, "Wallet 3/earlier16", 3, eps)
+		rc.Logf("%s: earlier generation naming the caller as participant: err=%v", tc, err)
+		rc.Stats.Inc("probe_caller_named_in_an_earlier_participant_list", 1)
+		if p := c.anyPanic(); p != "" {
+			rc.Violate("C16", "panic", fmt.Sprintf("%s: %s", tc, p), 0)
+			return
+		}
+	}
 
 	// A contribution that would verify at the target: a dishonest-but-consistent one for the target's id.
 	sec, vv := maliciousContribution(target.ID, th)
